@@ -4,7 +4,7 @@ bootloader mode while locked; everything else goes to the Signer model and
 requires the enclave to be unlocked."""
 from sim.devices.ledger import (LedgerDevice, _SW, CLA, SW_OK, MODE_SIGNER, MODE_BOOTLOADER,
                                 INS_MODE, INS_IS_ONBOARD, INS_HEARTBEAT, INS_END,
-                                ERR_INS_NOT_SUPPORTED)
+                                ERR_INS_NOT_SUPPORTED, pin_policy_ok)
 
 SGX_ONBOARD = 0xA0
 SGX_IS_LOCKED = 0xA1
@@ -29,6 +29,7 @@ class SgxDevice(LedgerDevice):
         self.locked = cfg.get("locked", True)
         self.mode = MODE_SIGNER           # the signer is the only application
         self.onboard_seed = None
+        self.seeds_received = []
 
     def exchange(self, apdu):
         self.apdus.append(("sgx-locked" if self.locked else "sgx", apdu))
@@ -88,8 +89,11 @@ class SgxDevice(LedgerDevice):
                     return (bytes([CLA, ins, 0]), SW_OK)
                 if isinstance(behaviour, int):
                     raise _SW(behaviour)
+                if not pin_policy_ok(pin) and not cfg.get("debug_build"):
+                    raise _SW(ERR_PASSWORD_CHANGE)      # access_set_password enforces the policy
                 self.pin = pin
                 self.retries = 3
+                self.locked = True                      # "Password set, access locked"
                 self.newpin_acks.append(pin)
                 return (bytes([CLA, ins, 1]), SW_OK)
             if ins == INS_HEARTBEAT:
@@ -125,9 +129,12 @@ class SgxDevice(LedgerDevice):
         self.onboard_seed = data[:32]
         pin = data[32:]
         self.pins_seen.append(("onboard", pin))
-        if self.cfg.get("onboard_fails"):
+        self.seeds_received.append((self.onboard_seed, 32))
+        if self.cfg.get("onboard_fails") or (not pin_policy_ok(pin)
+                                             and not self.cfg.get("debug_build")):
             raise _SW(ERR_ONBOARDING)
         self.pin = pin
         self.onboarded = True
-        self.locked = False
+        self.retries = 3
+        self.locked = True                              # "Password set, access locked"
         return (bytes([CLA, apdu[1], 1]), SW_OK)
